@@ -50,7 +50,7 @@ theorem ensureImpl_cases (s : St) (g : Nat) (h : Handle) (hg : aget s.G g = some
     flavours, whose move assignment is a copy assignment): the old slot list of the destination, which the
     assignment releases, may own the source, or (trackable flavours) the destination -/
 def masgOwned (s : St) (fl : Flavour) (j i : Nat) : Bool :=
-  s.ownedG.any (fun p => p.2 = i) || (fl.isTrackable && s.ownedG.any (fun p => p.2 = j))
+  s.ownedG.any (fun p => p.2 = i) || s.ownedG.any (fun p => p.2 = j)
 
 /-! ### `mkFun` frame: only the `everFwd` mark of a handle may change -/
 
